@@ -928,7 +928,10 @@ fn scenario(args: &Args, dir: &std::path::Path, out: &mut Out, ex: &mut Extra) {
         d.add_publish(Publish::new(None, obj_uri(&p1.handle, "sweep.cer"), content("sweep-object")));
         let m = publication::Message::delta(d);
         let bytes = sign8181(&w, m.clone(), &p1.id).expect("sign");
+        // compare flipped messages with what the UNTOUCHED bytes decode to (a constructed message and its decoded form
+        // differ in representation details such as absent / empty tags)
         let xml = m.to_xml_bytes();
+        let m = PublicationCms::decode(&bytes).expect("valid message decodes").into_message();
         let ec = find_sub(&bytes, xml.as_ref()).unwrap_or(bytes.len() / 4);
         let signer = p1.id.clone();
         let h = p1.handle.clone();
